@@ -132,7 +132,7 @@ def iosWriteMemRound : Sess :=
     (GetCmdOutput .save (.lit "") [""]) .skip ;;
   .ite (.flag .okMark) "strings.Contains($IssueCmd, \"[OK]\")" (.ret .none []) .skip ;;
   .ite (.flag .openFailed) "strings.Contains($IssueCmd, \"startup-config file open failed\")"
-    (.ite .ctrPos "$const > 0" (.decCtr ;; .cont) .skip ;;
+    (.ite .ctrPos "$v > 0" (.decCtr ;; .cont) .skip ;;
      .abort ["write mem: startup-config open failed - giving up"]) .skip ;;
   .abort ["write mem: unexpected result: %s", "_"]
 
@@ -154,12 +154,12 @@ theorem iosRound_cont (env : Env) (s : St) (hs : s.mode = .run) (hc : (exec iosW
     have key : ∀ s2 : St, s2.ctr = s.ctr → s2.mode ≠ .cont →
         (exec (.ite (.flag .okMark) "strings.Contains($IssueCmd, \"[OK]\")" (.ret .none []) .skip ;;
           .ite (.flag .openFailed) "strings.Contains($IssueCmd, \"startup-config file open failed\")"
-            (.ite .ctrPos "$const > 0" (.decCtr ;; .cont) .skip ;;
+            (.ite .ctrPos "$v > 0" (.decCtr ;; .cont) .skip ;;
              .abort ["write mem: startup-config open failed - giving up"]) .skip ;;
           .abort ["write mem: unexpected result: %s", "_"]) env s2).mode = .cont →
         s.ctr > 0 ∧ (exec (.ite (.flag .okMark) "strings.Contains($IssueCmd, \"[OK]\")" (.ret .none []) .skip ;;
           .ite (.flag .openFailed) "strings.Contains($IssueCmd, \"startup-config file open failed\")"
-            (.ite .ctrPos "$const > 0" (.decCtr ;; .cont) .skip ;;
+            (.ite .ctrPos "$v > 0" (.decCtr ;; .cont) .skip ;;
              .abort ["write mem: startup-config open failed - giving up"]) .skip ;;
           .abort ["write mem: unexpected result: %s", "_"]) env s2).ctr = s.ctr - 1 := by
       intro s2 hctr hnc hcont
